@@ -32,7 +32,7 @@ import AutomataVerif.Proofs.CtorNth
 import AutomataVerif.Proofs.CtorPrefix
 import AutomataVerif.Proofs.CtorKMPDfa
 import AutomataVerif.Proofs.CtorACDfa
-import AutomataVerif.Proofs.CtorFLDfa
+import AutomataVerif.Proofs.CtorFLMinimal
 import AutomataVerif.Proofs.Minimal
 
 namespace AV.Props.C15
@@ -561,9 +561,7 @@ The models (`fromSubstrings`: trie with labels in insertion order, failure links
 absorbing end state unless suffix mode; `fromFiniteLanguage`: sorted insertion into a trie with
 a signature register and compression of the non-shared suffix of the previous word,
 `_to_complete` with trap `0`) are executable and tied to the code by the correspondence run.
-Their language theorems are proved in general below; for the minimality of
-`from_finite_language` the general theorem is stated in full (`…_minimal_full`) and what is
-proved at this stage is listed after it (`…_minimal_partial`). -/
+Their theorems are proved in general below. -/
 
 /-- The verdict of the DFA returned by a constructor call (`none` if the call raised). -/
 def verdict (r : Res (DFA σ α)) (w : List α) : Option Bool :=
@@ -683,29 +681,56 @@ example : Builds (fromFiniteLanguage (fun a b : Nat => decide (a < b)) [0, 1]
     (fun w => w ∈ [[1, 0, 1], [0, 1], [1, 1], [], [0, 0, 1]]) :=
   (C15_from_finite_language _ FL.strictTotal_nat _ (by decide) _ (by decide) _ (by decide)).1
 
-/-- **Full statement of the minimality of `from_finite_language`** (the documentation promises
-the minimal DFA): in partial form all states are reachable, live and pairwise distinguishable
-(no DFA at all is smaller), in complete form (over a non-empty alphabet) all states are
-reachable and pairwise distinguishable (no complete DFA is smaller). -/
-def C15_from_finite_language_minimal_full : Prop :=
-  ∀ (α : Type) [DecidableEq α] (lt : α → α → Bool), FL.StrictTotal lt →
-    ∀ (syms : List α) (lang : List (List α)) (asPartial : Bool), syms.Nodup → lang.Nodup →
-      (∀ w ∈ lang, ∀ c ∈ w, c ∈ syms) →
-      ∀ d, fromFiniteLanguage lt syms lang asPartial = .ok d →
-        (asPartial = true → lang ≠ [] → MinimalPartialShape d ∧ MinimalAmongAll d) ∧
-        ((asPartial = false ∨ lang = []) → syms ≠ [] → MinimalShape d ∧ MinimalAmongComplete d)
+/-- **Minimality of `from_finite_language`** (the documentation promises the minimal DFA), under
+the hypotheses of `C15_from_finite_language`.  Partial form of a non-empty language: every state
+is reachable, live, and any two states are distinguishable — no DFA at all is smaller.
+Complete form over a non-empty alphabet (and the empty language, for which the code returns
+`empty_language(Σ)`): every state, the trap included, is reachable and any two are
+distinguishable — no complete DFA is smaller.  Behind it (`Proofs/CtorFLMinimal.lean`): the
+registered states are pairwise distinguishable at every point of the construction (`RegDist`;
+a state is registered only if no registered state has its signature, `compressAt_invD`, and the
+registered part of the table is frozen, `frozen_acc`), the root is told apart from every other
+state by a longest word of the language (`root_dist`). -/
+theorem C15_from_finite_language_minimal (lt : α → α → Bool) (ho : FL.StrictTotal lt) (syms : List α)
+    (lang : List (List α)) (hnd : lang.Nodup) (asPartial : Bool)
+    (hover : ∀ w ∈ lang, ∀ c ∈ w, c ∈ syms) :
+    ∀ d, fromFiniteLanguage lt syms lang asPartial = .ok d →
+      (asPartial = true → lang ≠ [] → MinimalPartialShape d ∧ MinimalAmongAll d) ∧
+      ((asPartial = false ∨ lang = []) → syms ≠ [] → MinimalShape d ∧ MinimalAmongComplete d) := by
+  intro d hd
+  by_cases hne : lang = []
+  · subst hne
+    have hr : fromFiniteLanguage lt syms [] asPartial = build (loopDFA FLName.zero syms false) := rfl
+    have hwf := wf_of_build hr hd
+    rw [eq_of_build hr hd]
+    exact ⟨fun _ h => absurd rfl h, fun _ _ =>
+      ⟨loopDFA_minimal _ syms false, C15_minimal_of_shape _ hwf (loopDFA_minimal _ syms false)⟩⟩
+  · obtain ⟨added, last, s, φ, hmem, hadd, inv, hD, he⟩ :=
+      FL.fromFiniteLanguage_eqD ho syms lang asPartial hne hnd
+    have hover' : ∀ w ∈ added, ∀ c ∈ w, c ∈ syms := fun w hw => hover w ((hmem w).mp hw)
+    cases asPartial with
+    | true =>
+      simp only [if_true] at he
+      rw [eq_of_build he hd]
+      refine ⟨fun _ _ => ?_, fun h => ?_⟩
+      · have h := FL.flPartial_minimal syms inv hadd hover' hD
+        exact ⟨h, C15_minimal_of_partial_shape _ h⟩
+      · rcases h with h | h
+        · cases h
+        · exact absurd h hne
+    | false =>
+      simp only [Bool.false_eq_true, if_false] at he
+      have hwf := wf_of_build he hd
+      rw [eq_of_build he hd]
+      refine ⟨(fun h => nomatch h), fun _ hs => ?_⟩
+      obtain ⟨a, ha⟩ := List.exists_mem_of_ne_nil syms hs
+      have h := FL.flComplete_minimal syms inv hadd hover' hD a ha
+      exact ⟨h, C15_minimal_of_shape _ hwf h⟩
 
-/-- Proved part of `C15_from_finite_language_minimal_full`: the empty language in general (the
-code returns `empty_language(Σ)` whatever `as_partial` is: valid, complete, minimal), and a
-concrete language with shared prefixes and shared suffixes (4 states in partial and 5 in
-complete form — the Myhill–Nerode numbers; its language is also decided on the listed words).
-The general proof needs one more clause in the invariant (registered states are pairwise
-distinguishable) and is not done. -/
-theorem C15_from_finite_language_minimal_partial :
-    (∀ (lt : α → α → Bool) (syms : List α) (asPartial : Bool),
-      Builds (fromFiniteLanguage lt syms [] asPartial) syms (fun w => w ∈ ([] : List (List α))) ∧
-      ∀ d, fromFiniteLanguage lt syms [] asPartial = .ok d →
-        d.allowPartial = false ∧ MinimalShape d ∧ MinimalAmongComplete d) ∧
+/-- Concrete instance: a language with shared prefixes and shared suffixes gets 4 states in
+partial and 5 in complete form (the Myhill–Nerode numbers), and its verdicts on the listed words
+are those of the language (kernel evaluation of the model). -/
+theorem C15_from_finite_language_instance :
     (∀ w ∈ [[], [0], [1], [0, 0], [0, 1], [1, 0], [1, 1], [0, 1, 1], [1, 0, 1], [0, 0, 1]],
       verdict (fromFiniteLanguage (fun a b => decide (a < b)) [0, 1]
           [[1, 0, 1], [0, 1], [1, 1], [0, 0, 1]] true) w =
@@ -714,14 +739,6 @@ theorem C15_from_finite_language_minimal_partial :
           [[1, 0, 1], [0, 1], [1, 1], [0, 0, 1]] true) = some 4 ∧
     size (fromFiniteLanguage (fun a b => decide (a < b)) [0, 1]
           [[1, 0, 1], [0, 1], [1, 1], [0, 0, 1]] false) = some 5 := by
-  refine ⟨?_, by decide, by decide, by decide⟩
-  intro lt syms asPartial
-  have hr : fromFiniteLanguage lt syms [] asPartial = build (loopDFA FLName.zero syms false) := rfl
-  refine ⟨builds_of syms hr (loopDFA_wf _ syms false) rfl (fun w => by
-    rw [loopDFA_accepts]; simp), ?_⟩
-  intro d hd
-  have hwf := wf_of_build hr hd
-  rw [eq_of_build hr hd]
-  exact ⟨rfl, loopDFA_minimal _ syms false, C15_minimal_of_shape _ hwf (loopDFA_minimal _ syms false)⟩
+  refine ⟨by decide, by decide, by decide⟩
 
 end AV.Props.C15
